@@ -355,6 +355,7 @@ func rulesC06(cx *Ctx) []Obligation {
 	obs = append(obs, rulesC06New(cx, enum, storeSites, collecting)...)
 	obs = append(obs, rulesC06RangeCheck(cx)...)
 	obs = append(obs, ruleNoCopy(cx, "C06", "goldilocks", "Chip", "it owns the list of collected range checks that the deferred drain reads")...)
+	obs = append(obs, ruleCollectedOnlyGrows(cx, "C06")...)
 	return obs
 }
 
